@@ -47,6 +47,20 @@ def walker_check(ck, prop, tier, seed, mode, kinds, proof_ok, what, extra_kinds=
             ck.violation(data, "; ".join(data["broken"]) + " " + str(data["schema_disagreements"])[:300], no_input=True)
 
 
+def path_check(ck, kinds, what):
+    """every path from every root type to a namespace field (through lists, maps, oneofs, failure chains, event blobs),
+    one minimal message per path"""
+    err, diffs, stats = W.run("paths", 1, 1)
+    mine = [d for d in diffs if d.split()[0] in kinds] if not err else []
+    ck.obligation("every one of the %d paths to a namespace field (all %d root types, one message per path): %s" % (stats.get("paths", 0), stats.get("roots", 0), what),
+                  not err and not mine and stats.get("paths", 0) > 1000, err or ("%d fail; first: %s" % (len(mine), mine[0][:300] if mine else "")))
+    ck.cov.setdefault("walker_stats", {})["paths"] = stats
+    if mine and not ck.violations:
+        d = mine[0]
+        ck.violation({"kind": "walker", "mode": "paths", "seed": 1, "cases": 1, "only": d.split()[1], "line": d, "all": mine[:15],
+                      "verdict": "the real walker does not treat the namespace field at this path as the property requires"}, d[:400])
+
+
 def check(tier, seed):
     ck = V.Check(PROP, tier, seed)
     ck.trusted = V.std_trusted() + [
@@ -58,6 +72,7 @@ def check(tier, seed):
     W.regenerate(ck)
     proof_ok = V.coq_stage(ck, PROP, TARGETS)
     walker_check(ck, PROP, tier, seed, MODE, KINDS, proof_ok, "visitNamespace")
+    path_check(ck, ("PATH",), "a name at that position is translated")
     return ck.finish(rule="every request/response type of both services (308 root types) x random fully-populated messages (all oneof alternatives over the run, every event type, event blobs in proto3 and "
                           "JSON encoding, multi-link events, failure chains) x 4 mappings (simple, chain, swap, non-matching); non-trivial = messages in which at least one name was actually mapped")
 
